@@ -342,11 +342,26 @@ Qed.
 Lemma pkce_plain_honoured r c k v : pkce_issued r c k (Some "plain") v = rel_matches "plain" v && client_ok c k.
 Proof. unfold pkce_issued. rewrite andb_comm. f_equal; destruct v; reflexivity. Qed.
 
-Lemma request_object_honoured r c k :
-  (doc_reqparam c = true <-> reqobj_outcome r c k = RoHonoured)
-  /\ (doc_reqparam c = false <-> reqobj_outcome r c k = RoNotSupported).
+(* for every client kind and every placement of the parameters that OIDC Core 6.1 allows *)
+Lemma request_object_honoured r c k p :
+  ro_legal p = true ->
+  (doc_reqparam c = true <-> reqobj_outcome r c k p = RoHonoured).
 Proof.
-  unfold doc_reqparam, reqobj_outcome. destruct r; destruct (f_reqobj c); split; split; intro H; try reflexivity; discriminate.
+  unfold doc_reqparam, reqobj_outcome. intro Hl.
+  destruct p; try discriminate Hl; destruct r; destruct (f_reqobj c); cbn; split; intro H;
+    try reflexivity; discriminate.
+Qed.
+
+(* not advertised and every parameter also outside the object: refused as request_not_supported *)
+Lemma request_object_refused r c k :
+  doc_reqparam c = false -> reqobj_outcome r c k PBoth = RoNotSupported.
+Proof. unfold doc_reqparam, reqobj_outcome. intros ->. destruct r; reflexivity. Qed.
+
+(* without advertised support no request object is honoured, wherever its parameters are *)
+Lemma request_object_not_advertised r c k p :
+  doc_reqparam c = false -> reqobj_outcome r c k p <> RoHonoured.
+Proof.
+  unfold doc_reqparam, reqobj_outcome. intros ->. destruct r; destruct p; cbn; discriminate.
 Qed.
 
 Lemma issuer_same r r' c q : doc_issuer r c q = token_issuer r' c q.
@@ -421,20 +436,41 @@ Proof.
     rewrite !String.eqb_refl. cbn. apply (served_route r c n). now rewrite E.
 Qed.
 
+Lemma spec_fetched_model r c names :
+  spec_fetched (map (ep_of (c_eps c)) names)
+               (map (fun n => ep_absolute (issuer_of c (mkRequest EmptyString None)) (ep_of (c_eps c) n)) names)
+               (map (fun n => fetched_model r c (ep_of (c_eps c) n)) names) = true
+  /\ forall iss, spec_fetched (map (ep_of (c_eps c)) names)
+               (map (fun n => ep_absolute iss (ep_of (c_eps c) n)) names)
+               (map (fun n => fetched_model r c (ep_of (c_eps c) n)) names) = true.
+Proof.
+  assert (H : forall iss, spec_fetched (map (ep_of (c_eps c)) names)
+               (map (fun n => ep_absolute iss (ep_of (c_eps c) n)) names)
+               (map (fun n => fetched_model r c (ep_of (c_eps c) n)) names) = true).
+  { intro iss. induction names as [|n names IH]; cbn [map spec_fetched]; [reflexivity|].
+    rewrite IH, andb_true_r.
+    destruct (ep_of (c_eps c) n) as [|p|p u] eqn:E; cbn.
+    - reflexivity.
+    - rewrite (served_route r c n (relative p)); [reflexivity | now rewrite E].
+    - destruct (is_empty u); reflexivity. }
+  split; [apply H | exact H].
+Qed.
+
 Lemma spec_model i : wf i = true -> spec i (model i) = true.
 Proof.
-  destruct i as [r c q probes | r c gs | r c k ch v | r c k q | api raw hostless o insecure | asked d]; cbn [wf model spec].
+  destruct i as [r c q probes | r c gs | r c k ch v | r c k pl q | api raw hostless o insecure | asked d]; cbn [wf model spec].
   - intro H. apply andb_true_iff in H. destruct H as [Hc Hp].
     unfold wf_config in Hc. apply andb_true_iff in Hc. destruct Hc as [Hc _].
     unfold doc_endpoint, doc_issuer, token_issuer.
     rewrite String.eqb_refl.
-    rewrite (spec_eps_model r c (issuer_of c q) all_epnames probes Hc Hp). cbn.
+    rewrite (spec_eps_model r c (issuer_of c q) all_epnames probes Hc Hp).
+    rewrite (proj2 (spec_fetched_model r c all_epnames) (issuer_of c q)). cbn.
     destruct (has_auth_and_token c); [apply String.eqb_refl | reflexivity].
   - intros _. apply spec_grants_model.
   - intros _. destruct ch as [m|]; [|reflexivity].
     destruct (string_in m (doc_pkce c)) eqn:E; [|reflexivity].
     rewrite (pkce_honoured r c k m v E). apply eqb_reflx.
-  - intros _. unfold reqobj_outcome, doc_reqparam. destruct r; destruct (f_reqobj c); reflexivity.
+  - intros _. unfold reqobj_outcome, doc_reqparam. destruct r; destruct (f_reqobj c); destruct pl; reflexivity.
   - intro H. apply andb_true_iff in H. destruct H as [Hh Hs].
     destruct (bad_issuer api raw hostless insecure) eqn:B; [|reflexivity].
     apply negb_true_iff.
